@@ -65,9 +65,11 @@ struct DoubleSize<W, WBITS> {
         const unsigned c = g_n;
         bool pre = (c < DSMAX) && (divisor != 0) && (high < divisor);
 #if WBITS == 64
-        pre = pre && (shift == SizeT32(__builtin_clzll(divisor | 1U)));
+        pre = pre && (shift < 64U) && (((divisor << (shift & 63U)) >> 63U) == 1U);   // shift normalises the divisor: msb lands on bit 63
 #endif
+#ifndef DS_PRE_ASSUMED             // (h_div_top: discharged by h_div_mod on the same code, only assumed there)
         vf_assert(pre, 90);          // the caller must establish the callee's precondition ...
+#endif
         vf_assume(pre);              // ... and only then may rely on its postcondition
         g_hi[c % DSMAX] = high; g_lo[c % DSMAX] = low;
         W q = vf_any<W>();
@@ -91,11 +93,14 @@ struct DoubleSize<W, WBITS> {
 }
 #endif
 
-// q2c/vf_rt.h has cttz only for i32/i64; clang narrows __builtin_ctz(SizeT32(u8|u16 word)) to llvm.cttz.i8/.i16, which the
-// translator names vf_cttz8/vf_cttz16.  Supplied here (loop-free, no ctz builtin) while the runtime lacks them (-DRT_CTTZ_NARROW).
-#ifdef RT_CTTZ_NARROW
+// Runtime helpers that q2c/vf_rt.h does not have yet (-DRT_SUPPLY_MISSING; drop the define once the runtime has them):
+//   vf_cttz8 / vf_cttz16  - clang narrows __builtin_ctz(SizeT32(u8|u16 word)) in Platform::FindFirstBit to llvm.cttz.i8 / .i16
+//   vf_fshl<w> / vf_fshr<w> - llvm.fshl/fshr (funnel shifts) formed from the reference shifts below
+// optnone: they must not be turned back into the very intrinsics they implement.
+#ifdef RT_SUPPLY_MISSING
+#define RT_FN extern "C" __attribute__((optnone, noinline))
 #if WBITS == 8
-extern "C" unsigned char vf_cttz8(unsigned char a, bool) {
+RT_FN unsigned char vf_cttz8(unsigned char a, bool) {
     if (a == 0) return 8;
     unsigned r = 0, x = a;
     if ((x & 0x0FU) == 0) { r += 4U; x >>= 4U; }
@@ -104,7 +109,7 @@ extern "C" unsigned char vf_cttz8(unsigned char a, bool) {
     return (unsigned char)r;
 }
 #elif WBITS == 16
-extern "C" unsigned short vf_cttz16(unsigned short a, bool) {
+RT_FN unsigned short vf_cttz16(unsigned short a, bool) {
     if (a == 0) return 16;
     unsigned r = 0, x = a;
     if ((x & 0xFFU) == 0) { r += 8U; x >>= 8U; }
@@ -113,6 +118,18 @@ extern "C" unsigned short vf_cttz16(unsigned short a, bool) {
     if ((x & 0x01U) == 0) { r += 1U; }
     return (unsigned short)r;
 }
+#endif
+#define RT_FSH(T, w) \
+RT_FN T vf_fshl##w(T a, T b, T c) { unsigned n = (unsigned)(c % w); if (n == 0) return a; return (T)((T)(a << n) | (T)(b >> (w - n))); } \
+RT_FN T vf_fshr##w(T a, T b, T c) { unsigned n = (unsigned)(c % w); if (n == 0) return b; return (T)((T)(a << (w - n)) | (T)(b >> n)); }
+#if WBITS == 8
+RT_FSH(unsigned char, 8)
+#elif WBITS == 16
+RT_FSH(unsigned short, 16)
+#elif WBITS == 32
+RT_FSH(unsigned int, 32)
+#else
+RT_FSH(unsigned long long, 64)
 #endif
 #endif
 
@@ -155,6 +172,13 @@ static inline DW any_dw() {
     return ((u128)hi << 64U) | lo;
 #else
     return vf_any<DW>();
+#endif
+}
+static inline bool wide_exceeds(WIDE x) {    // x does not fit the declared width (only possible when WIDE is wider than the BigInt)
+#if WIDEBITS > TOTBITS
+    return (x >> TOTBITS) != 0;
+#else
+    (void)x; return false;
 #endif
 }
 static inline unsigned top_chunk(WIDE x) {   // index of the highest non-zero W-sized chunk of x (0 for 0)
@@ -397,31 +421,51 @@ extern "C" void h_div() {            // Divide / remainder, directly against the
     vf_assume(d == W(DIVISOR));
 #endif
     M m = m_of(b);
+#if defined(DIV_BY_MULT) && defined(VBITS) && VBITS == 64
+    // division-free statement of the same claim:  pre == Q*d + r  with  r < d,  in 128-bit arithmetic (Q < 2^64, d < 2^16: no wrap)
+    const W got = b.Divide(d);
+    const V q = m_of(b);
+    vf_assert(inv(b), 1);
+    vf_assert(got < d, 2);
+    vf_assert((u128)q * (u128)d + (u128)got == (u128)m, 3);
+#else
     const W r = m_div(m, d);
     const W got = b.Divide(d);
     vf_assert(inv(b), 1);
     vf_assert(m_eq(b, m), 2);
     vf_assert(got == r, 3);
+#endif
     vf_witness();
 }
 #ifdef DS_CONTRACT
-extern "C" void h_div_mod() {        // Divide is schoolbook long division over DoubleSize::Divide (assume/guarantee)
+extern "C" void h_div_mod() {        // Divide is schoolbook long division over DoubleSize::Divide (assume/guarantee); top word: h_div_top
     B b; any_state(b);
     W d = vf_any<W>();
     vf_assume(d != 0);
     const M pre = m_of(b); const unsigned idx = b.index_;
-    const W top = m_word(pre, idx);
     g_n = 0;
     const W got = b.Divide(d);
     vf_assert(g_n == idx, 2);                     // one DoubleSize::Divide per word below the top one (its precondition: assertion 90)
     vf_assert(inv(b), 3);
-    unsigned i = vf_u32(); vf_assume(i < NW);     // every result word
-    const W e = (i > idx) ? W(0) : ((i == idx) ? W(top / d) : g_q[(idx - 1U - i) % DSMAX]);
-    vf_assert(b.storage_[i] == e, 4);
-    unsigned k = vf_u32(); vf_assume(k < idx);    // every call: remainder chain and the word consumed
-    vf_assert(g_hi[k % DSMAX] == ((k == 0) ? W(top % d) : g_r[(k - 1U) % DSMAX]), 5);
-    vf_assert(g_lo[k % DSMAX] == m_word(pre, (idx - 1U - k) % NW), 6);
-    vf_assert(got == ((idx == 0) ? W(top % d) : g_r[(idx - 1U) % DSMAX]), 7);
+    unsigned i = vf_u32(); vf_assume(i < NW);     // every result word except the top one
+    if (i > idx) vf_assert(b.storage_[i] == 0, 4);
+    if (i < idx) vf_assert(b.storage_[i] == g_q[(idx - 1U - i) % DSMAX], 5);
+    unsigned k = vf_u32();                        // every call: the word consumed, and the remainder chain
+    if (k < idx) vf_assert(g_lo[k % DSMAX] == m_word(pre, (idx - 1U - k) % NW), 6);
+    if (k < idx && k > 0) vf_assert(g_hi[k % DSMAX] == g_r[(k - 1U) % DSMAX], 7);
+    if (idx > 0) vf_assert(got == g_r[(idx - 1U) % DSMAX], 8);
+    vf_witness();
+}
+extern "C" void h_div_top() {        // the top word: quotient word and the first remainder are top / d and top % d
+    B b; any_state(b);
+    W d = vf_any<W>();
+    vf_assume(d != 0);
+    const unsigned idx = b.index_;
+    const W top = b.storage_[idx];
+    g_n = 0;
+    const W got = b.Divide(d);
+    vf_assert(b.storage_[idx % NW] == W(top / d), 1);
+    vf_assert(((idx == 0) ? got : g_hi[0]) == W(top % d), 2);
     vf_witness();
 }
 #endif
@@ -473,6 +517,9 @@ extern "C" void h_and() {            // &= word ; &= wide
 #ifdef KF_ONLY_C19_and_stale
     vf_assume(b.index_ > 0);
 #endif
+#if defined(KF_EXCL_C19_and_oob) || defined(KF_ONLY_C19_and_stale)
+    vf_assume(!wide_exceeds(x));
+#endif
     M m = m_of(b), mw = m;
     m_and_wide(m, (WIDE)n); m_and_wide(mw, x);
     b &= n; vf_assert(inv(b), 1); vf_assert(m_eq(b, m), 2);
@@ -487,6 +534,12 @@ extern "C" void h_and_wide() {       // &= wide alone, so that the exclusion is 
 #endif
 #ifdef KF_ONLY_C19_and_stale
     vf_assume(c.index_ > top_chunk(x));
+#endif
+#if defined(KF_EXCL_C19_and_oob) || defined(KF_ONLY_C19_and_stale)
+    vf_assume(!wide_exceeds(x));                 // x has a non-zero chunk beyond the last word: the AND loop writes there
+#endif
+#ifdef KF_ONLY_C19_and_oob
+    vf_assume(wide_exceeds(x));
 #endif
     M mw = m_of(c);
     m_and_wide(mw, x);
